@@ -25,6 +25,7 @@ META = {
     'technique': 'static analysis: inline-asm template parsing (stack-effect trace) + constraint accounting + '
                  'KnownBits + CFG reachability over LLVM IR',
 }
+META['explanation'] += ' Every thread-side swap saves into the running thread\'s own context and resumes the scheduler or a different thread (C03.10).'
 
 GPR15 = {'rax', 'rbx', 'rcx', 'rdx', 'rsi', 'rdi', 'rbp', 'r8', 'r9', 'r10', 'r11', 'r12', 'r13', 'r14', 'r15'}
 CALLEE_SAVED = {'rbp', 'rbx', 'r12', 'r13', 'r14', 'r15'}
@@ -374,6 +375,22 @@ def rule_publish(ctx, mod, fname, stops):
             if st.op == 'store' and f.field(st) in PUBLISH_FIELDS and \
                     f.can_reach(st, s.ins) and (f.sources(st.ops[0]) & f.sources(owner)):
                 offenders.append(st)
+        # C03.10: a swap saves the registers of the thread that is running into THAT thread's record and continues in a different
+        # context (hand mutant r6: the two context arguments of the yield switch exchanged)
+        to = s.to_ctx()
+        # (myth_startpoint_init_ex_body adopts the calling OS thread: its save area is the record it has just allocated for it)
+        if not sched and to is not None and fname != 'myth_startpoint_init_ex_body':
+            osrc = f.sources(owner) if isinstance(owner, str) else set()
+            running = bool(osrc) and all(
+                (k_ not in f.insts and k_.startswith('a')) or
+                (k_ in f.insts and f.insts[k_].op == 'load' and f.field(f.insts[k_]) == 'myth_running_env.this_thread') for k_ in osrc)
+            tsrc = f.sources(f.ap(to).root) if isinstance(f.ap(to).root, str) else set()
+            tsched = any(x.endswith('.sched') for x in f.ap(to).fields)
+            ctx.ob('C03.10', k + ': saves the running thread, resumes another context', running and (tsched or not (tsrc & osrc)),
+                   'the save area is the context of env->this_thread (or of the thread handed to the entry point) and the target is the '
+                   'scheduler or a different thread: exchanged arguments overwrite the next thread\'s saved registers and jump into a '
+                   'stale context', loc=s.ins.loc,
+                   detail='' if running else 'save area belongs to %s' % ', '.join(describe(f, k_) for k_ in sorted(osrc)[:2]))
         ctx.ob('C03.7', k + ': no publication before save', not offenders or sched,
                'the thread being suspended is not made visible to other workers (run queue, sleep queue/stack, '
                'join_thread, uncond slot) before the switch has saved its context; only the callback publishes it',
@@ -457,6 +474,8 @@ def run(ctx):
     ctx.doc('C03.5', 'template order: saves -> store rsp -> load rsp -> [call] -> pop+jmp; resume label pushed last')
     ctx.doc('C03.6', 'callback agreement: defined, noinline+used, SysV, three pointers bound to rdi/rsi/rdx')
     ctx.doc('C03.7', 'publication of the suspended thread happens only in the callback (after the context save)')
+    ctx.doc('C03.10', 'every thread-side swap saves into the context of the running thread (env->this_thread or the entry point\'s thread argument) '
+            'and continues in the scheduler context or in the context of a different thread')
     fls = ['vanilla', 'ld', 'dl'] if ctx.tier == 'thorough' else ['vanilla']
     for fl in fls:
         ctx.unit = fl
@@ -488,6 +507,7 @@ def run(ctx):
             for fname in names:
                 ctx.need_fn(v, fname)
                 ctx.attempt(rule_publish, ctx, v, fname, stops)
+        ctx.floor('C03.10', 7)
         ctx.attempt(rule_handover, ctx, fl)
         from . import c12
         with ctx.shared({'C12.4': 'C03.9'}, keep=lambda k: k.startswith(('create:', 'alloc:', 'free:', 'alloc and free')), floor=15,
@@ -512,6 +532,8 @@ def run(ctx):
 
 CTXF = 'src/myth_context_func.h'
 MUTANTS = [
+    {'name': 'yield switch with its two context arguments exchanged (hand mutant r6)', 'expect': 'C03.10',
+     'edits': [('src/myth_sched_func.h', "    myth_swap_context_withcall(&th->context, &next->context,\n\t\t\t       myth_yield_ex_1,", "    myth_swap_context_withcall(&next->context, &th->context,\n\t\t\t       myth_yield_ex_1,")]},
     {'name': 'fini hands the main thread over before its context is saved (seed3 C03/m3)', 'expect': 'C03.7',
      'edits': [('src/myth_worker_func.h', "    myth_swap_context_withcall(&th->context, &env->sched.context, \n\t\t\t       myth_startpoint_exit_ex_1,\n\t\t\t       (void*)th, (void*) rank_, NULL);", "    myth_startpoint_exit_ex_1((void*)th, (void*) rank_, NULL);\n    myth_swap_context(&th->context, &env->sched.context);")]},
     {'name': 'drop push/pop of r13', 'expect': ['C03.1', 'C03.2'],
